@@ -415,8 +415,9 @@ def compare_view(sim, who, lib_client, model, scopes, stack, devname, truth, vio
                                 return
 
 
-def check_initial_state(stack, viol, facts):
-    """Before any operation the driver holds what its definition declares (defaults, default_on, states, enable flags)."""
+def check_initial_state(stack, viol, facts, skip=()):
+    """Before any operation the driver holds what its definition declares (defaults, default_on, states, enable flags).
+    skip: (device, vector, element) triples whose value is supplied by a Read handler of the scenario."""
     for dname in stack.drivers:
         t = stack.truth(dname)
         if t["missing_groups"]:
@@ -431,6 +432,8 @@ def check_initial_state(stack, viol, facts):
                 got = te["value"]
                 if vs["kind"] == "Text":
                     got, want = got or "", want or ""
+                if (dname, vname, en) in skip:
+                    continue
                 if got != want:
                     viol.append({"clause": "C01.value", "detail": f"device {dname}: {vname}.{en} starts with {got!r}, its definition says {want!r}"
                                  + (f" (default_on={vs['default_on']!r}, sibling names {sorted(tv['elements'])})" if vs["kind"] == "Switch" else ""),
